@@ -2,6 +2,7 @@
 #include "v_harness.h"
 #include "automata_contracts.h"
 #include "lltdAutomata.c"      /* the real code, unmodified (built WITHOUT LLTD_TESTING) */
+#include "v_nocheck_push.h"      /* harness and specification code below: no implicit checks */
 
 struct in_band {
     struct v_cfg cfg;
